@@ -7,7 +7,8 @@ import "fmt"
 
 func (g *pgen) corpus(focus string, start int) []*ConvSpec {
 	if focus == "c07" {
-		return g.corpusC07(start)
+		out := g.corpusC07(start)
+		return append(out, g.corpusC12(start+len(out))...) // wrap modes written on the method against the converter's
 	}
 	if focus == "c04" {
 		return append(g.corpusSettings(start), g.corpusC04(start+3)...)
@@ -226,6 +227,22 @@ func (g *pgen) corpusC08(start int) []*ConvSpec {
 		td.EnumOf = s
 		return tNamed(s), tNamed(t), sd, td
 	}
+	// c. enum:transform regex whose pattern matches only a part of the member name (prefix, substring, suffix): the rest
+	// of the name is kept (regexp.ReplaceAllString), every member finds its target
+	for k, form := range []string{"^%s %s", "%s %s", "(%s)(A|B|C)$ %s$2"} {
+		s := g.newNamed(1, tBasic(bkInt), "NP")
+		t := g.newNamed(1, tBasic(bkInt), "NQ")
+		sd, td := g.p.Named[s], g.p.Named[t]
+		for j, suf := range []string{"A", "B", "C"} {
+			sd.Consts = append(sd.Consts, ConstDecl{Name: sd.Name + suf, Val: int64(j + 1)})
+			td.Consts = append(td.Consts, ConstDecl{Name: td.Name + suf, Val: int64(10 * (j + 1))})
+		}
+		td.EnumOf = s
+		c := &ConvSpec{Name: fmt.Sprintf("C%d", start+len(out)), Custom: true, Lines: []string{"enum:unknown @panic"}}
+		c.Methods = []*MethodSpec{{Name: "M0", Src: tNamed(s), Tgt: tNamed(t), Lines: []string{"enum:transform regex " + fmt.Sprintf(form, sd.Name, td.Name)}, Fields: map[string]*fieldSet{}}}
+		_ = k
+		out = append(out, c)
+	}
 	for _, unknown := range []string{"@panic", "@error", "@ignore"} {
 		// a. method-level "enum no" on the method that is processed first
 		s, t, sd, _ := mkPair("NC")
@@ -271,6 +288,13 @@ func (g *pgen) corpusC04(start int) []*ConvSpec {
 		{tMap(str, tSlice(i)), tMap(str, tPtr(tSlice(i)))}, {tMap(str, un), tMap(str, tPtr(un))}, {tMap(tArr(2, i), i), tMap(tPtr(tArr(2, i)), i)}} {
 		c := &ConvSpec{Name: fmt.Sprintf("C%d", start+len(out)), Lines: []string{"skipCopySameType"}}
 		c.Methods = []*MethodSpec{{Name: "M0", Src: pair[0], Tgt: pair[1], Fields: map[string]*fieldSet{}}}
+		out = append(out, c)
+	}
+	// array targets (no rule: refused today; if ever accepted, the elements must be deep-copied like everything else)
+	tagged := g.newNamed(1, &Ty{K: "struct", Pkg: 1, Fields: []Field{{"Name", str}, {"Tags", tSlice(str)}, {"Ref", tPtr(i)}}}, "S")
+	for _, at := range []*Ty{tArr(2, tNamed(tagged)), tPtr(tArr(2, tNamed(tagged))), tMap(str, tArr(2, tNamed(tagged))), tArr(2, &Ty{K: "struct", Pkg: 1, Fields: []Field{{"L", tSlice(i)}}})} {
+		c := &ConvSpec{Name: fmt.Sprintf("C%d", start+len(out))}
+		c.Methods = []*MethodSpec{{Name: "M0", Src: at, Tgt: at, Fields: map[string]*fieldSet{}}}
 		out = append(out, c)
 	}
 	for k, sh := range shapes {
